@@ -863,14 +863,11 @@ func vkTierFor(c *vkit.Ctx) vkTier {
 				return [][2]int{{p, 0}, {p, 1}, {p, 2}}
 			}}
 	}
-	return vkTier{nCands: len(vkCands), maxOwners: 4, alpha: append(full, "c"), alpha3: []string{"a", "b", "*", "A", "\x00"}, alpha4: []string{"a", "b", "*"},
+	return vkTier{nCands: len(vkCands), maxOwners: 4, alpha: append(full, "c"), alpha3: []string{"a", "b", "*", "A"}, alpha4: []string{"a", "b", "*"},
 		maxSub: 3, polBase: 2, prepVariants: true,
 		n3Variants: func(zi int) [][2]int {
 			var out [][2]int
-			for p := range vkN3ParamSets {
-				if p >= 2 && zi%2 == 1 {
-					continue
-				}
+			for _, p := range []int{zi % len(vkN3ParamSets), (zi + 2) % len(vkN3ParamSets)} {
 				out = append(out, [2]int{p, 0}, [2]int{p, 1}, [2]int{p, 2})
 			}
 			return out
